@@ -187,7 +187,9 @@ impl TransformTo<FriUnsentCommitmentVerifier> for stark_proof::FriUnsentCommitme
 
 impl TransformTo<PowUnsentCommitmentVerifier> for stark_proof::ProofOfWorkUnsentCommitment {
     fn transform_to(self) -> PowUnsentCommitmentVerifier {
-        PowUnsentCommitmentVerifier { nonce: self.nonce.to_u64_digits()[0] }
+        PowUnsentCommitmentVerifier {
+            nonce: self.nonce.to_u64_digits().first().copied().unwrap_or(0),
+        }
     }
 }
 
